@@ -132,6 +132,17 @@ class SimRaw(io.RawIOBase):
                 self._fs.fired(f, self._ev, 'write')
                 self._fs.log('write_fail', self._path, len(part))
                 raise OSError(errno.ENOSPC, 'No space left on device (sim)', self._path)
+        if f.get('kind') == 'write_short_after':
+            # what a kernel does at a quota / file-size limit: the write that crosses the limit stores what fits and
+            # returns a SHORT COUNT without an error; only the next write fails
+            room = f['k'] - self._written
+            if room <= 0:
+                self._fs.fired(f, self._ev, 'write')
+                raise OSError(errno.ENOSPC, 'No space left on device (sim)', self._path)
+            if len(b) > room:
+                self._put(b[:room])
+                self._fs.fired(f, self._ev, 'short-write')
+                return room
         self._put(b)
         return len(b)
 
@@ -569,7 +580,7 @@ class SimFS:
         readable = 'r' in mode or '+' in mode
         writable = writing
         raw = SimRaw(self, r, data, readable, writable, 'a' in mode, f if k in (
-            'read_eio_after', 'write_enospc_after', 'close_eio') else None, idx)
+            'read_eio_after', 'write_enospc_after', 'write_short_after', 'close_eio') else None, idx)
         if buffering == 0:
             if not binary:
                 raise ValueError("can't have unbuffered text I/O")
@@ -640,7 +651,7 @@ class SimFS:
             self.log('opened_w', r, m)
             self.mtimes[r] = self.clock
         raw = SimRaw(self, r, self.files[r], acc != os.O_WRONLY, bool(acc), bool(flags & os.O_APPEND),
-                     f if k in ('read_eio_after', 'write_enospc_after', 'close_eio') else None, idx)
+                     f if k in ('read_eio_after', 'write_enospc_after', 'write_short_after', 'close_eio') else None, idx)
         fd = self.FD_BASE + len(self.fds)
         self.fds[fd] = raw
         return fd
